@@ -612,6 +612,8 @@ _FLOAT_DTYPES = (None, float, complex, np.float64, np.complex128, np.float32, np
 
 
 def _is_float_dtype(dt):
+    if dt is _p_complex or dt is _p_float:
+        return True
     try:
         return dt in _FLOAT_DTYPES or np.dtype(dt).kind in "fc"
     except TypeError:
